@@ -43,6 +43,15 @@ impl<Out: ExchangeData> MultiplexingSender<Out> {
                 coord.coord.host_id, coord.prev_block_id, coord.coord.block_id
             ))
             .spawn(move || {
+                #[cfg(feature = "verif")]
+                let _verif_guard = crate::verif::NetGuard::new(
+                    crate::verif::NetThread::Mux,
+                    (
+                        coord.coord.block_id,
+                        coord.coord.host_id,
+                        coord.prev_block_id,
+                    ),
+                );
                 log::debug!(
                     "mux {coord} connecting to {}",
                     address.to_socket_addrs().unwrap().next().unwrap()
@@ -134,8 +143,22 @@ fn mux_thread<Out: ExchangeData>(
     // let mut w = std::io::BufWriter::new(&mut stream);
     let mut w = &mut stream;
 
+    #[cfg(feature = "verif")]
+    let verif_idle = || {
+        crate::verif::emit(&crate::verif::Event::NetIdle {
+            kind: crate::verif::NetThread::Mux,
+        })
+    };
+    #[cfg(feature = "verif")]
+    verif_idle();
     while let Ok((dest, message)) = rx.recv() {
+        #[cfg(feature = "verif")]
+        crate::verif::emit(&crate::verif::Event::NetBusy {
+            kind: crate::verif::NetThread::Mux,
+        });
         remote_send(message, dest, &mut w, &address);
+        #[cfg(feature = "verif")]
+        verif_idle();
     }
 
     w.flush().unwrap();
